@@ -813,3 +813,60 @@ def enum_c08_coap(tier):
 
 C08_COAP_LAYERS = [Layer("coap-unanswered-requests", run_c08_coap, enumerate=enum_c08_coap, exhaustive=True,
                          space="3 ways a request goes unanswered (silence, network error, bare error code) x 3 histories of reads and writes", min_nontrivial=9)]
+
+
+# ---------------------------------------------------------------- C11 on CoAP: every attempt's context (a bound UDP socket) is shut down unless it is the one in use
+def run_c11_coap(case, R):
+    script = case["script"]          # per connection attempt: "ok" | "silent-m1" | "silent-m3" | "error-m2" | "error-m4"
+    R.nt(any(x != "ok" for x in script))
+    R.cls("c11-coap")
+
+    async def main(loop):
+        w = CoapWorld(loop, k=case.get("k", 0))
+        attempt = [0]
+
+        def vf(stage, reply, pv):
+            if stage == "m2":
+                attempt[0] += 1
+            o = script[attempt[0] - 1] if attempt[0] - 1 < len(script) else "ok"
+            if (o, stage) in (("silent-m1", "m2"), ("silent-m3", "m4")):
+                return None
+            if (o, stage) in (("error-m2", "m2"), ("error-m4", "m4")):
+                return [(T_STATE, b"\x02" if stage == "m2" else b"\x04"), (T_ERROR, b"\x02")]
+            return reply
+        w.acc.verify_fault = vf
+        p = w.pairing
+        try:
+            for i in range(len(script) + 1):
+                try:
+                    await asyncio.wait_for(p.get_characteristics([(1, 10)]), 300)
+                except Exception:  # noqa: BLE001
+                    pass
+                await asyncio.sleep(case.get("gap", 1))
+                await vtime.settle(loop)
+                open_ = [c for c in w.contexts if not c.shut]
+                if len(open_) > 1:
+                    R.fail("C11.two-connections", f"CoAP attempts {script}: after request {i} {len(open_)} of {len(w.contexts)} contexts (UDP sockets) are open", after="coap")
+                    return
+                if len(open_) == 1 and not p.is_connected:
+                    R.fail("C11.leak-after-failed-setup", f"CoAP attempts {script}: after request {i} the pairing is not connected and holds an open context")
+                    return
+            # (what close() / shutdown() do with the context in use is not judged here: the CoAP pairing only unsubscribes, and the statement's
+            # anchors are the IP connection - DESIGN section 8)
+            await p.shutdown()
+        finally:
+            w.restore()
+    vtime.run(main)
+
+
+def enum_c11_coap(tier):
+    outs = ["ok", "silent-m1", "silent-m3", "error-m2", "error-m4"]
+    for a in outs:
+        yield {"script": [a]}
+        for b in outs:
+            yield {"script": [a, b]}
+            yield {"script": [a, b, a], "gap": 30}
+
+
+C11_COAP_LAYERS = [Layer("coap-contexts", run_c11_coap, enumerate=enum_c11_coap, exhaustive=True,
+                         space="every pair of per-attempt outcomes over {ok, no answer to M1, no answer to M3, error M2, error M4} (+ a third attempt)", min_nontrivial=40)]
